@@ -9,7 +9,7 @@ CHECKS={
    text="Exploration: every sequence of <=3 classes of a 64-class token alphabet (and <=4 of a 42-class one) in 6 contexts x 2 renderings is parsed and the independent leaf-walk oracle compared with the input bytes; beyond that corpus-damage, random-text and grammar-generated inputs. No proof: holds for the enumerated space exactly and for the sampled space empirically.",
    note="Trusts rowan's token text/range accessors as the observation of the tree; deep nesting (>64) is delegated to C02.", ref="DESIGN.md §5 C01"),
  "C02": dict(tech="exhaustive token-class enumeration + nesting ladders + proptest-generated prefixes/soups; crash oracle in sandboxed worker processes (panic capture, signal = stack overflow, watchdog)", engine="sandbox",
-   text="Exploration: same enumerated space as C01 without depth cap, all corpus prefixes, 20 recursive-construct ladders to depth 2^14 with 0/half/all closers, random mixed stacks, token soup. Each worker is a child process: a panic is caught and attributed, a signal (stack overflow) or a stalled case is confirmed by re-running the marked case alone before it is reported.",
+   text="Exploration: same enumerated space as C01 without depth cap, all corpus prefixes, 32 recursive-construct ladders to depth 2^14 with 0/half/all closers, random mixed stacks, token soup. Each worker is a child process: a panic is caught and attributed, a signal (stack overflow) or a stalled case is confirmed by re-running the marked case alone before it is reported.",
    note="Stack budget 2 MiB for deep cases (tokio blocking pool); timing limits 20 s/200 s; known finding C02-F1 (left-nested trees > ~20000 levels abort inside rowan) is excluded by construction and its witness replayed.", ref="DESIGN.md §5 C02"),
  "C03": dict(tech="exhaustive single token edits on 16 body templates x 8 followers + sampled/exhaustive edit pairs + proptest-generated multi-definition files; metamorphic damage-locality oracle", engine="inproc",
    text="Exploration: every (position, non-opening token class, insert/replace/delete) edit of 16 victim bodies chosen to hit each recovery loop of the parser, in front of 8 different following definitions; edit pairs; generated files with up to 3 edits. The oracle compares the untouched definitions (kind, text, position) with the undamaged parse, forbids top-level nodes straddling the victim and errors outside it.",
